@@ -226,16 +226,18 @@ class FuncInfo:
 
 
 class Module:
-    def __init__(self, repo, name, path):
+    def __init__(self, repo, name, path, tree=None, source=None):
         self.repo = repo
         self.name = name
         self.path = path
         self.relpath = os.path.relpath(path, repo.root)
-        self.source = open(path, encoding="utf-8").read()
-        try:
-            self.tree = ast.parse(self.source, filename=path)
-        except SyntaxError as e:
-            raise AnalysisError(f"syntax error in {self.relpath}: {e}")
+        self.source = source if source is not None else open(path, encoding="utf-8").read()
+        if tree is None:
+            try:
+                tree = ast.parse(self.source, filename=path)
+            except SyntaxError as e:
+                raise AnalysisError(f"syntax error in {self.relpath}: {e}")
+        self.tree = tree
         set_parents(self.tree)
         self.is_package = os.path.basename(path) == "__init__.py"
         self.imports = {}
@@ -344,8 +346,30 @@ class Module:
     def func(self, qualname):
         fi = self.funcs.get(qualname)
         if fi is None:
+            fi = self._relocated(qualname)
+        if fi is None:
             raise AnalysisError(f"anchor vanished: function {self.name}:{qualname}")
         return fi
+
+    def _relocated(self, qualname):
+        """a reference function that changed nesting level (closure hoisted to module level or the reverse) or moved to
+        another module under the same name; only functions the reference does not know at their new place qualify"""
+        ref = self.repo.reference or {}
+        base = qualname.rsplit(".", 1)[-1]
+        if qualname not in ref.get(self.name, {qualname: None}):
+            return None
+        cands = [fi for q, fi in self.funcs.items() if q.rsplit(".", 1)[-1] == base and q not in ref.get(self.name, {}) and not fi.is_lambda]
+        if len(cands) == 1:
+            return cands[0]
+        if cands:
+            return None
+        for m in self.repo.modules.values():
+            if m is self:
+                continue
+            for q, fi in m.funcs.items():
+                if q.rsplit(".", 1)[-1] == base and q not in ref.get(m.name, {}) and not fi.is_lambda:
+                    cands.append(fi)
+        return cands[0] if len(cands) == 1 else None
 
     def value(self, name):
         v = self.assigns.get(name)
@@ -373,9 +397,11 @@ class Repo:
     def __init__(self, root):
         self.root = os.path.abspath(root)
         self.modules = {}
+        self.prenorm_notes = []
         pkgdir = os.path.join(self.root, PKG)
         if not os.path.isdir(pkgdir):
             raise AnalysisError(f"package directory {pkgdir} not found")
+        files = {}
         for dp, dn, fn in os.walk(pkgdir):
             dn[:] = sorted(d for d in dn if d not in ("tests", "__pycache__"))
             for f in sorted(fn):
@@ -385,7 +411,25 @@ class Repo:
                 rel = os.path.relpath(p, self.root)[:-3].replace(os.sep, ".")
                 if rel.endswith(".__init__"):
                     rel = rel[: -len(".__init__")]
-                self.modules[rel] = Module(self, rel, p)
+                files[rel] = p
+        from . import prenorm
+        self.reference = prenorm.load_reference()
+        trees, sources = {}, {}
+        for rel, p in files.items():
+            sources[rel] = open(p, encoding="utf-8").read()
+            try:
+                trees[rel] = ast.parse(sources[rel], filename=p)
+            except SyntaxError as e:
+                raise AnalysisError(f"syntax error in {os.path.relpath(p, self.root)}: {e}")
+        if not prenormalise_disabled():
+            changed, self.prenorm_notes = prenorm.prenormalise(trees)
+            for rel in changed:
+                # fresh, consistent positions for the rewritten module
+                ast.fix_missing_locations(trees[rel])
+                sources[rel] = ast.unparse(trees[rel])
+                trees[rel] = ast.parse(sources[rel], filename=files[rel])
+        for rel, p in files.items():
+            self.modules[rel] = Module(self, rel, p, tree=trees[rel], source=sources[rel])
 
     # -- anchors
     def module(self, name):
@@ -511,6 +555,10 @@ class Repo:
             if len(assigns) == 1 and len(ref.entries) == 1:
                 return assigns[0][1], ref.func
         return None
+
+
+def prenormalise_disabled():
+    return bool(os.environ.get("VERIF_NO_PRENORM"))
 
 
 BUILTINS = set(dir(__builtins__)) if not isinstance(__builtins__, dict) else set(__builtins__)
